@@ -249,6 +249,9 @@ M("c05.docstring-before-step-accepted", "C05", PAR, "            if not self.sta
 
 # ---- C06 -------------------------------------------------------------------
 M("c06.step-for-row-without-deepcopy", "C06", MOD, "        new_step = copy.deepcopy(outline_step)", "        new_step = copy.copy(outline_step)")
+M("c06.plain-outline-tags-normalized", ["C06", "C09"], MOD,
+  "                tag = Tag.make_name(tag, unescape=True)\n            tags.append(tag)\n",
+  "                tag = Tag.make_name(tag, unescape=True)\n            tags.append(Tag.make_name(tag, unescape=True))\n")
 M("c06.examples-tags-not-added", "C06", MOD, "        row_tags.extend(example.tags)\n", "")
 M("c06.scenario-line-from-examples", "C06", MOD, "        scenario_line = row.line\n", "        scenario_line = example.line\n")
 M("c06.table-headings-not-substituted", "C06", MOD, "                for i, cell in enumerate(new_step.table.headings):\n                    new_step.table.headings[i] = cell.replace(placeholder, value)\n", "")
